@@ -1,1 +1,145 @@
+// Kani harnesses for C04 (k-NN classifier), child module of src/neighbors/knn_classifier.rs.
+// KNNClassifier::predict_for_row: "the prediction is the class with the largest total weight among the k nearest
+// neighbours (weighted plurality)".  The estimator is assembled field by field (fit is a whole-algorithm function and
+// is not harnessed): n = 3 training points, two classes, the linear search over the harness metric below, fixed k.
+//
+// Points are one-element rows [id]; the metric is a symbolic symmetric table with entries from {0.0, 1.0, 2.0, 3.0}
+// indexed by id; the query is the row [3.0], a point outside the training set.  Labels y[i] in {0, 1} are symbolic.
+// The votes are recounted in integers over the neighbours that `find` (harnessed on its own in c04_linear_knn.rs)
+// returns for the same query.
 use super::*;
+use crate::algorithm::neighbour::linear_search::LinearKNNSearch;
+
+const IDS: usize = 4;
+
+#[derive(Clone)]
+struct TableMetricV {
+    t: [[f64; IDS]; IDS],
+}
+
+impl Distance<Vec<f64>, f64> for TableMetricV {
+    fn distance(&self, a: &Vec<f64>, b: &Vec<f64>) -> f64 {
+        self.t[a[0] as usize][b[0] as usize]
+    }
+}
+
+fn pick_d(lo: u8) -> f64 {
+    let s: u8 = kani::any();
+    kani::assume(s >= lo && s < 4);
+    match s {
+        0 => 0.0,
+        1 => 1.0,
+        2 => 2.0,
+        _ => 3.0,
+    }
+}
+
+/// symmetric, zero diagonal; `lo` = 1 excludes exact matches (distance 0) between different ids
+fn any_table(lo: u8) -> TableMetricV {
+    let mut t = [[0.0f64; IDS]; IDS];
+    for a in 0..IDS {
+        for b in (a + 1)..IDS {
+            let d = pick_d(lo);
+            t[a][b] = d;
+            t[b][a] = d;
+        }
+    }
+    TableMetricV { t }
+}
+
+fn training_rows() -> Vec<Vec<f64>> {
+    vec![vec![0.0], vec![1.0], vec![2.0]]
+}
+
+fn any_labels() -> [usize; 3] {
+    let y: [usize; 3] = kani::any();
+    kani::assume(y[0] < 2 && y[1] < 2 && y[2] < 2);
+    y
+}
+
+fn classifier(metric: TableMetricV, y: [usize; 3], weight: KNNWeightFunction, k: usize) -> KNNClassifier<f64, TableMetricV> {
+    let search = match LinearKNNSearch::new(training_rows(), metric) {
+        Ok(s) => s,
+        Err(_) => {
+            kani::assume(false);
+            loop {}
+        }
+    };
+    KNNClassifier {
+        classes: vec![0.0, 1.0],
+        y: vec![y[0], y[1], y[2]],
+        knn_algorithm: KNNAlgorithm::LinearSearch(search),
+        weight,
+        k,
+    }
+}
+
+// uniform weights: plurality of the labels of the k nearest neighbours (fit refuses k <= 1, so k = 2, 3)
+macro_rules! h_classify_uniform {
+    ($name:ident, $k:expr, $unw:expr) => {
+        #[kani::proof]
+        #[kani::unwind($unw)]
+        fn $name() {
+            const K: usize = $k;
+            let metric = any_table(0);
+            let y = any_labels();
+            let knn = classifier(metric, y, KNNWeightFunction::Uniform, K);
+            let mut votes = [0usize; 2];
+            {
+                let nb = match knn.knn_algorithm.find(&vec![3.0], K) {
+                    Ok(nb) => nb,
+                    Err(_) => {
+                        assert!(false, "KNNClassifier::predict_for_row: the neighbour query succeeds for 1 <= k <= n");
+                        return;
+                    }
+                };
+                assert!(nb.len() == K, "KNNClassifier::predict_for_row: k neighbours are consulted");
+                for e in 0..K {
+                    votes[y[nb[e].0]] += 1;
+                }
+            }
+            let c = match knn.predict_for_row(vec![3.0]) {
+                Ok(c) => c,
+                Err(_) => {
+                    assert!(false, "KNNClassifier::predict_for_row: succeeds for 1 <= k <= n");
+                    return;
+                }
+            };
+            assert!(c < 2, "KNNClassifier::predict_for_row: the prediction is a class index");
+            assert!(votes[c] >= votes[1 - c], "KNNClassifier::predict_for_row (uniform weights): no class has more of the k nearest neighbours than the predicted one");
+            assert!(votes[c] >= 1, "KNNClassifier::predict_for_row (uniform weights): the predicted class occurs among the k nearest neighbours");
+            kani::cover!(c == 1 && votes[0] + 1 == votes[1]);
+            kani::cover!(c == 0 && votes[1] > 0);
+        }
+    };
+}
+h_classify_uniform!(c04_knn_classify_uniform_n3_k2, 2, 10);
+h_classify_uniform!(c04_knn_classify_uniform_n3_k3, 3, 10);
+
+// distance weights, an exact match (distance 0) of the query among the training points, k = n = 3:
+// the exact matches take all the weight, so the prediction is a class of an exact match.
+#[kani::proof]
+#[kani::unwind(10)]
+fn c04_knn_classify_exact_match_n3_k3() {
+    let metric = any_table(0);
+    let y = any_labels();
+    let t = metric.t;
+    kani::assume(t[3][0] == 0.0 || t[3][1] == 0.0 || t[3][2] == 0.0);
+    let knn = classifier(metric, y, KNNWeightFunction::Distance, 3);
+    let c = match knn.predict_for_row(vec![3.0]) {
+        Ok(c) => c,
+        Err(_) => {
+            assert!(false, "KNNClassifier::predict_for_row: succeeds for 1 <= k <= n");
+            return;
+        }
+    };
+    let mut exact = [0usize; 2];
+    for i in 0..3 {
+        if t[3][i] == 0.0 {
+            exact[y[i]] += 1;
+        }
+    }
+    assert!(c < 2, "KNNClassifier::predict_for_row: the prediction is a class index");
+    assert!(exact[c] >= 1 && exact[c] >= exact[1 - c], "KNNClassifier::predict_for_row (distance weights): exact-match neighbours take all the weight (the prediction is the plurality class of the exact matches)");
+    kani::cover!(c == 1 && exact[0] == 0 && y[0] == 0 && y[1] == 0);
+}
